@@ -4,6 +4,7 @@ import (
 	"bufio"
 	"bytes"
 	"io"
+	"os"
 )
 
 // Kinds of objects a caller may hand to the library, and ways a caller may move the data. The
@@ -25,9 +26,10 @@ import (
 //	9 *bufio.Reader with a 37-byte buffer (its fills end off every 4-byte grid)
 //	10 *bufio.Reader (default size) over a bare source that hands out one byte per call
 //	11 *bufio.Reader (default size) over a bare source that hands out five bytes per call
-const nSourceKinds = 12
+//	12 *os.File (an unlinked temporary file positioned at its start: io.Seeker, io.ReaderAt, io.WriterTo, Stat)
+const nSourceKinds = 13
 
-var sourceKindNames = []string{"bytes.Reader", "bufio(16)", "bufio(default)", "bare 1-byte", "bare half reads", "bare, data with EOF", "bare 1-byte, data with EOF", "bytes.Buffer", "Read+ReadByte only", "bufio(37)", "bufio over 1-byte reads", "bufio over 5-byte reads"}
+var sourceKindNames = []string{"bytes.Reader", "bufio(16)", "bufio(default)", "bare 1-byte", "bare half reads", "bare, data with EOF", "bare 1-byte, data with EOF", "bytes.Buffer", "Read+ReadByte only", "bufio(37)", "bufio over 1-byte reads", "bufio over 5-byte reads", "os.File"}
 
 type bareSource struct {
 	data    []byte
@@ -95,8 +97,27 @@ func sourceOf(kind int, data []byte) io.Reader {
 		return bufio.NewReader(&bareSource{data: data, step: 1})
 	case 11:
 		return bufio.NewReader(&bareSource{data: data, step: 5})
+	case 12:
+		return tempFileWith(data)
 	}
 	return bytes.NewReader(data)
+}
+
+// tempFileWith returns an open, already unlinked temporary file that holds data and is positioned at
+// its start (the descriptor is released by the runtime's finalizer).
+func tempFileWith(data []byte) *os.File {
+	f, err := os.CreateTemp("", "verif-src-")
+	if err != nil {
+		panic(err)
+	}
+	os.Remove(f.Name())
+	if _, err := f.Write(data); err != nil {
+		panic(err)
+	}
+	if _, err := f.Seek(0, io.SeekStart); err != nil {
+		panic(err)
+	}
+	return f
 }
 
 // bareSink is an io.Writer and nothing else.
